@@ -106,7 +106,7 @@ func c14cIsData(argv [][]byte) bool {
 	case "cluster", "ping", "info", "command", "auth", "select":
 		return false
 	}
-	return true
+	return !redisd.NonData(string(argv[0]))
 }
 
 // c14cStream: unit i writes key[Lane[i]] with a unique value.
@@ -164,6 +164,10 @@ type c14cScenario struct {
 	// Colo: the keys of both lanes live on node 0 (different slots): their transactions travel over one
 	// node pipeline, so what happens to the transaction in front is seen by the one queued behind it
 	Colo bool `json:"colo,omitempty"`
+	// Rekey > 0 (family 'failover'): from start number Rekey on the source reports a new replication id
+	// with the previous one as its second id; every start runs (*syncer).updateCheckpoint,
+	// StartPoint(ids), SetRunId(ids[0]) (see c14Scenario.Rekey)
+	Rekey int `json:"rekey,omitempty"`
 }
 
 func c14cExec(t *testing.T, scn c14cScenario, ch *mc.Chooser) (rec c14Rec, machinery string) {
@@ -254,7 +258,12 @@ func c14cExec(t *testing.T, scn c14cScenario, ch *mc.Chooser) (rec c14Rec, machi
 			// the start sequence scans all 16384 slots (tens of thousands of requests): crash points
 			// inside it are enumerated by the standalone variant, not here
 			crashed := false
-			boot = biBootWith(scn.Cfg, rc, "src", aofRunID, aofS0, true, nodeOf)
+			ids := c14IDs(scn.Rekey, runNo)
+			if scn.Rekey > 0 {
+				boot = biBootIDs(scn.Cfg, rc, "src", ids, aofS0, nodeOf, nil)
+			} else {
+				boot = biBootWith(scn.Cfg, rc, "src", aofRunID, aofS0, true, nodeOf)
+			}
 			rr.BootEnd = int(cl.Clock())
 			if crashed || boot.err != nil {
 				rr.Crashed = crashed
@@ -278,16 +287,16 @@ func c14cExec(t *testing.T, scn c14cScenario, ch *mc.Chooser) (rec c14Rec, machi
 				break
 			}
 			setPark(true)
-			run := biStart(boot.ro, aofRunID, boot.offset)
+			run := biStart(boot.ro, ids[0], boot.offset)
 			pos := startIdx
 			softLeft := 0
 			// inProcessRestart: what RedisInput.Run does after a non-fatal error - the same
 			// output object is asked for its start point again and Send is called again
 			inProcessRestart := func() bool {
 				setPark(false)
-				sp, err := boot.ro.StartPoint(context.Background(), []string{aofRunID, biRunID2})
+				sp, err := boot.ro.StartPoint(context.Background(), ids)
 				if err == nil {
-					err = boot.ro.SetRunId(context.Background(), aofRunID)
+					err = boot.ro.SetRunId(context.Background(), ids[0])
 				}
 				setPark(true)
 				nr := c14Run{FirstSeq: int(cl.Clock()), BootEnd: int(cl.Clock()), Offset: sp.Offset, SpOffset: sp.Offset}
@@ -311,7 +320,7 @@ func c14cExec(t *testing.T, scn c14cScenario, ch *mc.Chooser) (rec c14Rec, machi
 					return false
 				}
 				pos = idx
-				run = biStart(boot.ro, aofRunID, nr.Offset)
+				run = biStart(boot.ro, ids[0], nr.Offset)
 				return true
 			}
 			if scn.Soft && runNo == 0 {
